@@ -49,10 +49,13 @@ Effect(c) ==
                                IF Len(a.vs) # Len(b.vs) THEN Fail("VALUE")
                                ELSE OkA(FA(Len(a.vs), [k \in 1..Len(a.vs) |-> RAdd(a.vs[k], Conv(b.u, a.u, b.vs[k]))], a.u))
     [] c.op = "ChangingIndex" ->
-         \* c.form: "number" (in the array's unit), "scalar" (Scalar in c.u, use_value_unit), "keep" (use_value_unit = False), "tuple"
+         \* c.form: "number" (in the array's unit), "scalar" (Scalar in c.u, use_value_unit), "keep" (use_value_unit = False), "tuple" (7.5, c.u),
+         \*         "tuplekeep" ((None, c.u): the entry keeps its amount, the array is re-expressed in c.u)
          LET a == pool[c.i]
-             ru == IF c.form \in {"scalar", "tuple"} THEN c.u ELSE a.u                 \* unit of the result
-             amount == IF c.form = "number" THEN <<15, 2>> ELSE Conv(c.u, ru, <<15, 2>>) IN      \* the supplied amount 7.5 (in c.u), in the result's unit
+             ru == IF c.form \in {"scalar", "tuple", "tuplekeep"} THEN c.u ELSE a.u                 \* unit of the result
+             amount == IF c.form = "number" THEN <<15, 2>>
+                       ELSE IF c.form = "tuplekeep" /\ InRange(c.idx, Len(a.vs)) THEN Conv(a.u, ru, a.vs[Pos(c.idx, Len(a.vs))])
+                       ELSE Conv(c.u, ru, <<15, 2>>) IN      \* the supplied amount 7.5 (in c.u), in the result's unit
          IF ~InRange(c.idx, Len(a.vs)) THEN Fail("INDEX")
          ELSE OkA(FA(a.dim, [k \in 1..Len(a.vs) |-> IF k = Pos(c.idx, Len(a.vs)) THEN amount ELSE Conv(a.u, ru, a.vs[k])], ru))
     [] c.op = "IndexAsScalar" -> LET a == pool[c.i] IN
@@ -66,7 +69,7 @@ Appends(op) == op \in {"Ctor", "CtorDefault", "CreateWithQuantity", "CreateEmpty
 Step(c) ==
   /\ Len(hist) < MaxCalls
   /\ \E r \in {Effect(c)} :
-     /\ pool' = IF r.ok /\ Appends(c.op) THEN Append(pool, r.a) ELSE pool
+     /\ pool' = IF r.ok /\ Appends(c.op) /\ c.form # "points" THEN Append(pool, r.a) ELSE pool     \* (arrays of points are judged when they are built and not used further)
      /\ curve' = IF r.ok /\ c.op = "SetImage" THEN [curve EXCEPT !.img = c.n]
                  ELSE IF r.ok /\ c.op = "SetDomain" THEN [curve EXCEPT !.dom = c.n] ELSE curve
      /\ hist' = Append(hist, [c |-> c, ok |-> r.ok, exc |-> r.exc, a |-> r.a, x |-> r.x, cv |-> curve.img])
@@ -77,23 +80,27 @@ Us == {"m", "cm"}
 \* (a fresh record per call: several TLC workers normalising one shared record value race)
 C(op) == [f \in {"op", "d", "n", "i", "j", "u", "idx", "form"} |->
             CASE f = "op" -> op [] f \in {"d", "n"} -> NoDim [] f \in {"i", "j", "idx"} -> 0 [] f = "u" -> "m" [] f = "form" -> ""]
-Ctor == \E d \in Dims, n \in Lens, u \in Us : Step([C("Ctor") EXCEPT !.d = d, !.n = n, !.u = u])
+\* form "points": the values are n points of size two (a list / tuple of pairs, a two-dimensional numpy array) - the length that must equal the
+\* dimension is the number of points, on every route that takes values
+PForms == {"", "points"}
+Ctor == \E d \in Dims, n \in Lens, u \in Us, f \in PForms : Step([C("Ctor") EXCEPT !.d = d, !.n = n, !.u = u, !.form = f])
 CtorDefault == \E d \in Dims : Step([C("CtorDefault") EXCEPT !.d = d])
-CreateWithQuantity == \E d \in Dims \cup {NoDim}, n \in Lens : Step([C("CreateWithQuantity") EXCEPT !.d = d, !.n = n])
-CreateEmptyArray == \E d \in Dims, n \in Lens \cup {NoDim} : Step([C("CreateEmptyArray") EXCEPT !.d = d, !.n = n])
+CreateWithQuantity == \E d \in Dims \cup {NoDim}, n \in Lens, f \in PForms : Step([C("CreateWithQuantity") EXCEPT !.d = d, !.n = n, !.form = f])
+CreateEmptyArray == \E d \in Dims, n \in Lens \cup {NoDim}, f \in PForms : (n = NoDim => f = "") /\ Step([C("CreateEmptyArray") EXCEPT !.d = d, !.n = n, !.form = f])
 I == 1..Len(pool)
-CreateCopy == \E i \in I, n \in Lens \cup {NoDim} : Step([C("CreateCopy") EXCEPT !.i = i, !.n = n])
+CreateCopy == \E i \in I, n \in Lens \cup {NoDim}, f \in PForms : (n = NoDim => f = "") /\ Step([C("CreateCopy") EXCEPT !.i = i, !.n = n, !.form = f])
 CopyToUnit == \E i \in I, u \in Us : pool[i].u # "" /\ Step([C("CopyToUnit") EXCEPT !.i = i, !.u = u])
 CopyValuesTo == \E i \in I, n \in Lens, u \in Us, f \in {"unit", "unitcat"} : Step([C("CopyValuesTo") EXCEPT !.i = i, !.n = n, !.u = u, !.form = f])
 Pickle == \E i \in I : Step([C("Pickle") EXCEPT !.i = i])
 Scale == \E i \in I : Step([C("Scale") EXCEPT !.i = i])
 AddArrays == \E i \in I, j \in I : pool[i].u # "" /\ pool[j].u # "" /\ Step([C("AddArrays") EXCEPT !.i = i, !.j = j])
-ChangingIndex == \E i \in I, idx \in (-MaxDim - 1)..MaxDim, f \in {"number", "scalar", "keep", "tuple"}, u \in Us :
+ChangingIndex == \E i \in I, idx \in (-MaxDim - 1)..MaxDim, f \in {"number", "scalar", "keep", "tuple", "tuplekeep"}, u \in Us :
                    pool[i].u # "" /\ (f = "number" => u = "m") /\ Step([C("ChangingIndex") EXCEPT !.i = i, !.idx = idx, !.form = f, !.u = u])
 IndexAsScalar == \E i \in I, idx \in (-MaxDim - 1)..MaxDim, u \in Us : pool[i].u # "" /\ Step([C("IndexAsScalar") EXCEPT !.i = i, !.idx = idx, !.u = u])
 \* form "points": the values are n points of size two (a list of pairs / a two-dimensional numpy array) - the length is the number of points
-SetImage == \E n \in Lens, f \in {"", "points", "points2d"} : Step([C("SetImage") EXCEPT !.n = n, !.form = f])
-SetDomain == \E n \in Lens, f \in {"", "points", "points2d"} : Step([C("SetDomain") EXCEPT !.n = n, !.form = f])
+\* form "prop": the array is assigned through the property (curve.image = x / curve.domain = x), the same check applies
+SetImage == \E n \in Lens, f \in {"", "points", "points2d", "prop"} : Step([C("SetImage") EXCEPT !.n = n, !.form = f])
+SetDomain == \E n \in Lens, f \in {"", "points", "points2d", "prop"} : Step([C("SetDomain") EXCEPT !.n = n, !.form = f])
 CurveLen == Step(C("CurveLen"))
 CurveItem == \E idx \in (-MaxDim - 1)..MaxDim : Step([C("CurveItem") EXCEPT !.idx = idx])
 Init == /\ TLCSet(2, 1 + (EmitOffset % 65520)) /\ pool = <<>> /\ hist = <<>>
@@ -114,7 +121,8 @@ ChangingIndexLaw == [][ LET s == LastStep IN (s.c.op = "ChangingIndex" /\ s.ok) 
      LET a == pool[s.c.i]  r == s.a IN
      /\ r.dim = a.dim
      /\ \A k \in 1..a.dim : k # Pos(s.c.idx, a.dim) => RMul(r.vs[k], F(r.u)) = RMul(a.vs[k], F(a.u))
-     /\ RMul(r.vs[Pos(s.c.idx, a.dim)], F(r.u)) = RMul(<<15, 2>>, F(IF s.c.form = "number" THEN a.u ELSE s.c.u)) ]_vars
+     /\ RMul(r.vs[Pos(s.c.idx, a.dim)], F(r.u)) = IF s.c.form = "tuplekeep" THEN RMul(a.vs[Pos(s.c.idx, a.dim)], F(a.u))
+                                                     ELSE RMul(<<15, 2>>, F(IF s.c.form = "number" THEN a.u ELSE s.c.u)) ]_vars
 
 EmitRec == PrintT(<<"TR", ToJson([h |-> hist'])>>)
 Emit == CASE EmitMode = "all"    -> EmitRec
